@@ -506,3 +506,137 @@ func TestC10Sampled(t *testing.T) {
 		c10Run(rt, c, false)
 	})
 }
+
+// ---- several rows per chunk, every argument row-dependent -------------------------
+
+type c10MultiCase struct {
+	E     *lib.Node  `json:"e"`
+	Pairs []lib.Pair `json:"pairs"`
+	Batch int        `json:"batch"`
+	Fn    string     `json:"fn"`
+	Query string     `json:"query"`
+}
+
+func init() {
+	registerReplay("c10multi", func(c *c10MultiCase) string { m, _, _ := checkC10Multi(c); return m })
+}
+
+// checkC10Multi: the same expression over several pairs whose arguments ALL
+// differ from row to row, drained row-wise and in chunks: every row must show
+// the documented value for its own pair.
+func checkC10Multi(c *c10MultiCase) (msg string, nontrivial bool, labels []string) {
+	st := &lib.Stmt{Kind: "select", Fields: []lib.SelField{{E: lib.Key()}, {E: c.E}}, Where: lib.Bin("=", lib.Int(1), lib.Int(1))}
+	q := st.Render()
+	c.Query = q
+	sorted := lib.NewStore(c.Pairs).Pairs()
+	want := make([][]any, 0, len(sorted))
+	distinct := map[string]bool{}
+	for _, p := range sorted {
+		v, err := lib.Eval(c.E, &lib.Env{K: p.K, V: p.V})
+		if err != nil {
+			return "", false, []string{"skipped-not-evaluable"}
+		}
+		want = append(want, []any{p.K, v})
+		distinct[lib.Show(v)] = true
+	}
+	nontrivial = len(distinct) >= 2
+	approx := isDistance(c.E)
+	for _, cfg := range []lib.Cfg{{Mode: "row", Batch: c.Batch, Cache: true}, {Mode: "batch", Batch: c.Batch, Cache: true}, {Mode: "batch", Batch: 32, Cache: true}} {
+		res := lib.Run(q, lib.NewStore(c.Pairs), len(c.Pairs), cfg)
+		if res.Failed() {
+			return fmt.Sprintf("query %q over %v [%s]: documented values %s, engine: %s", q, sorted, cfg, lib.ShowRows(want), res.Describe()), nontrivial, labels
+		}
+		ok := len(res.Rows) == len(want)
+		for i := 0; ok && i < len(want); i++ {
+			if len(res.Rows[i]) != 2 || !lib.EqualVal(want[i][0], res.Rows[i][0]) {
+				ok = false
+			} else if approx {
+				ok = lib.ApproxEqualVal(want[i][1], res.Rows[i][1], 1e-12)
+			} else {
+				ok = lib.EqualVal(want[i][1], res.Rows[i][1])
+			}
+		}
+		if !ok {
+			return fmt.Sprintf("query %q over %v [%s]:\n  documented %s\n  engine     %s", q, sorted, cfg, lib.ShowRows(want), lib.ShowRows(res.Rows)), nontrivial, labels
+		}
+	}
+	return "", nontrivial, labels
+}
+
+// c10MultiTemplates: calls whose every argument depends on the row. The key
+// has the form "<sep><digit><letters>", the value is built to match.
+func c10MultiTemplates() []struct {
+	fn string
+	e  *lib.Node
+} {
+	sepOfKey := func() *lib.Node { return lib.Call("substr", lib.Key(), lib.Int(0), lib.Int(1)) }
+	numOfKey := func() *lib.Node { return lib.Call("int", lib.Call("substr", lib.Key(), lib.Int(1), lib.Int(2))) }
+	type tp = struct {
+		fn string
+		e  *lib.Node
+	}
+	return []tp{
+		{"split(value, row-sep)", lib.Call("split", lib.Value(), sepOfKey())},
+		{"split(value, row-sep)[n]", lib.Index(lib.Call("split", lib.Value(), sepOfKey()), 1)},
+		{"len(split(value, row-sep))", lib.Call("len", lib.Call("split", lib.Value(), sepOfKey()))},
+		{"join(row-sep, ...)", lib.Call("join", sepOfKey(), lib.Value(), lib.Key(), numOfKey())},
+		{"join(split)", lib.Call("join", sepOfKey(), lib.Index(lib.Call("split", lib.Value(), sepOfKey()), 0), lib.Index(lib.Call("split", lib.Value(), sepOfKey()), 1))},
+		{"substr(value, row-start, row-end)", lib.Call("substr", lib.Value(), numOfKey(), lib.Bin("+", numOfKey(), lib.Call("strlen", sepOfKey())))},
+		{"substr(value, 0, row-end)", lib.Call("substr", lib.Value(), lib.Int(0), numOfKey())},
+		{"upper(value + key)", lib.Call("upper", lib.Bin("+", lib.Value(), lib.Key()))},
+		{"lower(join)", lib.Call("lower", lib.Call("join", lib.Str("-"), lib.Key(), lib.Value()))},
+		{"strlen(value + key)", lib.Call("strlen", lib.Bin("+", lib.Value(), lib.Key()))},
+		{"str(num) + value", lib.Bin("+", lib.Call("str", numOfKey()), lib.Value())},
+		{"int(str(num)) * strlen", lib.Bin("*", lib.Call("int", lib.Call("str", numOfKey())), lib.Call("strlen", lib.Value()))},
+		{"float(num) / 2.0", lib.Bin("/", lib.Call("float", numOfKey()), lib.Float("2.0"))},
+		{"is_int(row)", lib.Call("is_int", lib.Call("substr", lib.Key(), lib.Int(1), lib.Int(3)))},
+		{"is_float(row)", lib.Call("is_float", lib.Index(lib.Call("split", lib.Value(), sepOfKey()), 0))},
+		{"list(num, strlen)[n]", lib.Index(lib.Call("list", numOfKey(), lib.Call("strlen", lib.Value()), lib.Int(7)), 1)},
+		{"int_list(num, strlen)", lib.Call("int_list", numOfKey(), lib.Call("strlen", lib.Value()))},
+		{"float_list(num)[0]", lib.Index(lib.Call("float_list", lib.Call("float", numOfKey()), lib.Float("0.5")), 0)},
+		{"len(list(...))", lib.Call("len", lib.Call("list", numOfKey(), lib.Call("strlen", lib.Value())))},
+		{"l2_distance(row, row)", lib.Call("l2_distance", lib.Call("list", numOfKey(), lib.Call("strlen", lib.Value())), lib.Call("list", lib.Call("strlen", lib.Key()), numOfKey()))},
+		{"cosine_distance(row, row)", lib.Call("cosine_distance", lib.Call("list", lib.Bin("+", numOfKey(), lib.Int(1)), lib.Call("strlen", lib.Key())), lib.Call("list", lib.Call("strlen", lib.Key()), lib.Bin("+", numOfKey(), lib.Int(2))))},
+		{"row in split(row)", lib.InList(lib.Call("substr", lib.Key(), lib.Int(2), lib.Int(3)), lib.Call("split", lib.Value(), sepOfKey()))},
+		{"num in int_list(row)", lib.InList(numOfKey(), lib.Call("int_list", lib.Call("strlen", lib.Value()), lib.Int(2)))},
+	}
+}
+
+func genC10MultiPairs(rt *rapid.T) []lib.Pair {
+	n := rapid.IntRange(2, 7).Draw(rt, "nrows")
+	m := map[string]string{}
+	for i := 0; i < n; i++ {
+		sep := rapid.SampledFrom([]string{",", ":", ";", "-", "|", "x"}).Draw(rt, "sep")
+		num := rapid.IntRange(0, 9).Draw(rt, "num")
+		tail := rapid.StringMatching(`[a-c]{0,3}`).Draw(rt, "tail")
+		np := rapid.IntRange(2, 4).Draw(rt, "nparts")
+		parts := make([]string, np)
+		for j := range parts {
+			parts[j] = rapid.SampledFrom([]string{"a", "b", "ab", "1", "7", "Q", "", "c"}).Draw(rt, "part")
+		}
+		m[fmt.Sprintf("%s%d%s", sep, num, tail)] = strings.Join(parts, sep)
+	}
+	var ps []lib.Pair
+	for k, v := range m {
+		ps = append(ps, lib.Pair{K: k, V: v})
+	}
+	return lib.NewStore(ps).Pairs()
+}
+
+// TestC10Chunks: every template over random multi-pair stores.
+func TestC10Chunks(t *testing.T) {
+	tpls := c10MultiTemplates()
+	rapid.Check(t, func(rt *rapid.T) {
+		tp := rapid.SampledFrom(tpls).Draw(rt, "template")
+		c := &c10MultiCase{E: tp.e, Pairs: genC10MultiPairs(rt), Batch: rapid.SampledFrom([]int{1, 2, 3}).Draw(rt, "batch"), Fn: tp.fn}
+		lib.Journal("C10", "c10multi", c)
+		msg, nt, labels := checkC10Multi(c)
+		labels = append(labels, "fn="+tp.fn+"/chunk", "form=chunk")
+		lib.Stats.Case(nt, c.Query+"|"+fmt.Sprint(c.Pairs, c.Batch), labels, func() any {
+			return map[string]any{"query": c.Query, "pairs": c.Pairs, "batch": c.Batch}
+		})
+		if msg != "" {
+			fail(rt, "C10", "c10multi", msg, c)
+		}
+	})
+}
